@@ -23,6 +23,7 @@ type compDef struct {
 	stmts []*tw.Stmt
 	slots []string // declared slot names ("" = default)
 	args  []string
+	needs string // usable only where this loop variable is visible
 }
 
 func c07Components() []compDef {
@@ -35,6 +36,9 @@ func c07Components() []compDef {
 		{name: "components/card", args: []string{"n"}, slots: []string{"body", "foot"}, stmts: []*tw.Stmt{tw.Text("<card "), tw.Print(tw.Bin("+", tw.Var("n"), intLit(1))), tw.Text(" page="), tw.Print(tw.Var("i1")), tw.Text(">"),
 			slot("body"), tw.Text("<hr>"), slot("foot"), tw.Text("</card>\n")}},
 		{name: "c2", args: nil, slots: []string{""}, stmts: []*tw.Stmt{tw.Text("<c2 "), tw.Print(tw.Var("s1")), tw.Text(">"), slot(""), tw.Text("</c2>")}},
+		// nothing is passed to these two: all they show comes from the surrounding loop
+		{name: "c3", needs: "lv", stmts: []*tw.Stmt{tw.Text("<c3 "), tw.Print(tw.Var("lv")), tw.Text(" "), tw.Print(tw.Bin("+", tw.Var("i1"), intLit(1))), tw.Text(">")}},
+		{name: "c4", needs: "fv", stmts: []*tw.Stmt{tw.Text("<c4 "), tw.Print(tw.Bin("*", tw.Var("fv"), intLit(10))), tw.Text(">")}},
 	}
 }
 
@@ -112,7 +116,15 @@ func (u *useGen) slotBody(loopVar string) []*tw.Stmt {
 }
 
 func (u *useGen) use(loopVar string) []*tw.Stmt {
-	defs := c07Components()
+	var defs []compDef
+	for _, d := range c07Components() {
+		if d.needs == "" || d.needs == loopVar {
+			defs = append(defs, d)
+			if d.needs != "" {
+				defs = append(defs, d, d) // favoured where they are possible
+			}
+		}
+	}
 	d := defs[rapid.IntRange(0, len(defs)-1).Draw(u.rt, "comp")]
 	ref := d.name
 	if d.name == "components/card" && rapid.Bool().Draw(u.rt, "alias") {
@@ -170,7 +182,7 @@ func (u *useGen) page(depth int) []*tw.Stmt {
 
 func TestC07_Components(t *testing.T) {
 	c := harness.New(t, "C07", "components",
-		"pages with 1..4 uses of four component files (arguments used in text, expressions and conditions; a page variable that is not passed; default and named top-level slots; one under components/ addressed by '~name'): the same component several times with different arguments and different / missing slot bodies, uses inside @each and @for (arguments and slot bodies from the loop variable, >= 2 passes), inside @if/@else, inside @insert blocks of a layout, and inside the slot body passed to another use; slot bodies with text and {{ }} over page variables. Expected: reference instantiation (arguments evaluated at the place of use, surrounding scope visible, each placeholder replaced by the body passed by that use or nothing). Non-trivial: one component used >= 2 times or a use evaluated in a loop. Distinct by hash of files + data.")
+		"pages with 1..4 uses of six component files (arguments used in text, expressions and conditions; a page variable that is not passed; two files that take nothing and show the variable of the loop around the use; default and named top-level slots; one under components/ addressed by '~name'): the same component several times with different arguments and different / missing slot bodies, uses inside @each and @for (arguments and slot bodies from the loop variable, >= 2 passes), inside @if/@else, inside @insert blocks of a layout, and inside the slot body passed to another use; slot bodies with text and {{ }} over page variables. Expected: reference instantiation (arguments evaluated at the place of use, surrounding scope visible, each placeholder replaced by the body passed by that use or nothing). Non-trivial: one component used >= 2 times or a use evaluated in a loop. Distinct by hash of files + data.")
 	defer c.Finish()
 	in := interp()
 	runRapid(t, c, 4000, 45000, func(rt *rapid.T) {
